@@ -495,7 +495,7 @@ func TotalPlan(tier string) *harness.Plan {
 		}
 	}
 	return &harness.Plan{
-		Units: nStrU + nCoU + nSeedU, Chunk: 1, Run: run, UnitTimeout: 300 * time.Second,
+		Units: nStrU + nCoU + nSeedU, Chunk: 1, Run: run, UnitTimeout: 600 * time.Second, HangIsViolation: true,
 		Describe: func(u int) string {
 			switch {
 			case u < nStrU:
@@ -523,6 +523,6 @@ func TotalPlan(tier string) *harness.Plan {
 		Level:  "model_checking",
 		Bounds: map[string]any{"string_len_20_symbols": l20, "string_len_28_symbols": l28, "strings_searched": len(strs), "strings_compile_only": nCompileOnly, "shared_haystacks": len(hs), "seeds": len(seeds), "size_ladder": sizes},
 		Budget: map[bool]time.Duration{false: 150 * time.Second, true: 40 * time.Minute}[thorough],
-		Assume: []string{"out-of-bounds reads are detected only when they cross into the guard page the slice is flush against", "hangs are detected by the per-unit watchdog (300 s for units that normally take well under a second)", "negative start offsets are outside the API contract and not explored"},
+		Assume: []string{"out-of-bounds reads are detected only when they cross into the guard page the slice is flush against", "hangs are detected by the per-unit watchdog (600 s for units that normally take seconds), the only wall-clock judgement of the framework", "negative start offsets are outside the API contract and not explored"},
 	}
 }
